@@ -178,6 +178,7 @@ def _remove_unwanted_expression_nodes(parent_node, pos, until_pos):
     is_suite_part = typ in ('suite', 'file_input')
     if typ in EXPRESSION_PARTS or is_suite_part:
         nodes = parent_node.children
+        start_index = end_index = None
         for i, n in enumerate(nodes):
             if n.end_pos > pos:
                 start_index = i
@@ -197,6 +198,9 @@ def _remove_unwanted_expression_nodes(parent_node, pos, until_pos):
                     else:
                         break
                 break
+        if start_index is None or end_index is None:
+            # The range does not cover any part of this node.
+            raise RefactoringError('Cannot extract anything from that')
         nodes = nodes[start_index:end_index + 1]
         if not is_suite_part:
             nodes[0:1] = _remove_unwanted_expression_nodes(nodes[0], pos, until_pos)
